@@ -112,3 +112,64 @@ spec fn patched(from: &RawSnap, delta: &Delta, o: Seq<i32>, k: i32) -> bool {
     &&& (from.offsets@.contains_key(k) ==> forall|j: int| 0 <= j < d.len() ==> o[j] == wadd(from.item_data(k)[j], d[j]))
     &&& (!from.offsets@.contains_key(k) ==> o == d)
 }
+
+// ---- Snap / Builder representation invariants (C10) -----------------------------------------------------------------
+pub enum TypeId { Ordinal(u16), Uuid(Uuid) }   // gamenet/common/src/snap_obj.rs (two variants, same payload types)
+#[verifier::external_body]
+fn uuid_to_item_data(uuid: Uuid) -> (r: [i32; 4]) ensures spec_uuid(r@) == Some(uuid), { unimplemented!() }
+impl Snap {
+    // every known UUID type has its definition item (type 0, id = raw type id) in the snapshot, no two UUIDs share a raw type id,
+    // and there are at most as many of them as items
+    spec fn ext_ok(&self) -> bool {
+        &&& forall|u: Uuid| self.extended_types@.contains_key(u) ==> #[trigger] self.raw.offsets@.contains_key(mk_key(0, self.extended_types@[u]))
+        &&& forall|a: Uuid, b: Uuid| self.extended_types@.contains_key(a) && self.extended_types@.contains_key(b) && a != b
+                ==> self.extended_types@[a] != self.extended_types@[b]
+        &&& self.extended_types@.len() <= self.raw.offsets@.len()
+    }
+}
+impl Builder {
+    // the next raw type id for a UUID type lies in 0x4000..0x8000 and stays there however many of the remaining item slots are
+    // used for new types (this is what the two assert!s of add_item rest on)
+    spec fn wf(&self) -> bool {
+        &&& self.snap.raw.wf() && self.snap.ext_ok()
+        &&& 0x4000 <= self.next_type_id
+        &&& self.next_type_id + 1024 - self.snap.raw.offsets@.len() < 0x8000
+        // raw type ids of UUID types never alias an ordinal type
+        &&& forall|u: Uuid| self.snap.extended_types@.contains_key(u) ==> 0x4000 <= #[trigger] self.snap.extended_types@[u] < 0x8000
+    }
+}
+// BTreeMap<Uuid, u16>::get by value (entry API stand-in: Occupied(o) => *o.get(), Vacant => None)
+fn vx_ext_get(m: &BTreeMap<Uuid, u16>, u: Uuid) -> (r: Option<u16>)
+    ensures r is Some <==> m@.contains_key(u), r is Some ==> r->Some_0 == m@[u],
+{ match m.get(&u) { Some(x) => Some(*x), None => None } }
+// `for (&uuid, &id) in &map`: the key/value pairs of a BTreeMap<Uuid, u16>, distinct keys
+#[verifier::external_body]
+fn vx_pairs_ext(m: &BTreeMap<Uuid, u16>) -> (r: Vec<(Uuid, u16)>)
+    ensures
+        r@.len() == m@.len(),
+        forall|j: int| 0 <= j < r@.len() ==> m@.contains_key(#[trigger] r@[j].0) && m@[r@[j].0] == r@[j].1,
+        forall|a: int, b: int| 0 <= a < b < r@.len() ==> r@[a].0 != r@[b].0,
+        forall|u: Uuid| m@.contains_key(u) ==> exists|j: int| 0 <= j < r@.len() && #[trigger] r@[j].0 == u,
+{ unimplemented!() }
+// `map.range(first..=last).map(|(k, _)| k)`: the keys within [first, last], ascending
+#[verifier::external_body]
+fn vx_keys_in_range(m: &BTreeMap<i32, ops::Range<u32>>, first: i32, last: i32) -> (r: Vec<i32>)
+    ensures
+        forall|j: int| 0 <= j < r@.len() ==> m@.contains_key(#[trigger] r@[j]) && first <= r@[j] <= last,
+        forall|a: int, b: int| 0 <= a < b < r@.len() ==> r@[a] < r@[b],
+        forall|k: i32| m@.contains_key(k) && first <= k <= last ==> exists|j: int| 0 <= j < r@.len() && r@[j] == k,
+{ unimplemented!() }
+// `map.retain(|_, &mut id| 0x4000 <= id && id < 0x8000)`
+#[verifier::external_body]
+fn vx_retain_ext(m: &mut BTreeMap<Uuid, u16>)
+    ensures
+        forall|u: Uuid| (*final(m))@.contains_key(u) <==> ((*old(m))@.contains_key(u) && 0x4000 <= (*old(m))@[u] < 0x8000),
+        forall|u: Uuid| (*final(m))@.contains_key(u) ==> (*final(m))@[u] == (*old(m))@[u],
+        (*final(m))@.len() <= (*old(m))@.len(),
+{ unimplemented!() }
+proof fn lemma_key_small(id: u16)
+    ensures mk_key(0, id) == id as i32, k_id(id as i32) == id, k_type(id as i32) == 0,
+{
+    let x = id as u32;
+    assert(((0u32 << 16) | x) == x && (x & 0xffff) == x && ((x >> 16) & 0xffff) == 0) by (bit_vector) requires x <= 0xffff;
+}
